@@ -1,5 +1,5 @@
 // C13 harness: LRU cache (collections/lru/cache.go).
-// input    = (cap (op ...) nocb valkind)   op = (code args...), see coq/C13/Run.v; nocb = 1: no callback;
+// input    = (cap (op ...) nocb valkind cbmode)   op = (code args...), see coq/C13/Run.v; nocb = 1: no callback;
 //            valkind: the Go type the stored values are wrapped in (not seen by the model)
 // observed = ((out log len) ...)    one per operation
 package main
@@ -119,18 +119,76 @@ func run(in Sx) Sx {
 		valKind = in.At(3).AsInt()
 	}
 	toVal := func(v int64) interface{} { return toValKind(v, valKind) }
+	// what the callback does besides recording its arguments (the callback is part of the input):
+	// 0 nothing; 1 looks at the cache (Contains of its key, Len) — on the clean code an entry has
+	// left when its callback runs (except during Purge); 2 removes ANOTHER entry from inside the
+	// callback (the op list names it: an op `(6 k 1)` is performed from inside the callback of
+	// the op before it); 3 panics (the caller recovers; the cache must be as if the callback had
+	// returned)
+	cbmode := 0
+	if in.Len() > 4 {
+		cbmode = in.At(4).AsInt()
+	}
 	var log []Sx
+	var c *lru.Cache
 	var cb func(k, v interface{})
+	var (
+		curCode   int   // opcode of the top-level operation in progress
+		fired     int   // callbacks so far in this operation
+		lenBefore int   // Len() before the operation
+		newPut    int   // 1 if the operation is a Put of an absent key
+		viewBad   int64 // mode 1: the callback saw its own entry still present / a wrong Len
+		armed     bool  // mode 2: a nested removal is due in the first callback of this operation
+		armedKey  int64
+		nestedOut Sx
+		nestedAt  int // number of log entries when the nested removal started
+		lenAtCb   int
+		inNested  bool
+	)
 	if !nocb {
 		cb = func(k, v interface{}) {
 			log = append(log, Ints(unkey(k), val(v)))
+			fired++
+			switch cbmode {
+			case 1:
+				if curCode != 9 {
+					if c.Contains(k) {
+						viewBad = 1
+					}
+					if c.Len() != lenBefore+newPut-fired {
+						viewBad = 1
+					}
+				}
+			case 2:
+				if armed && !inNested {
+					armed = false
+					inNested = true
+					lenAtCb = c.Len()
+					nestedAt = len(log)
+					nestedOut = List(Int(0), Bool(c.Remove(key(armedKey))))
+					inNested = false
+				}
+			case 3:
+				panic("callback panics")
+			}
 		}
 	}
-	c := lru.NewCache(capacity, cb)
+	c = lru.NewCache(capacity, cb)
 	var obs []Sx
 	for i := 0; i < ops.Len(); i++ {
 		op := ops.At(i)
 		log = nil
+		fired, viewBad, nestedOut, armed = 0, 0, Sx{}, false
+		curCode = op.At(0).AsInt()
+		lenBefore = c.Len()
+		newPut = 0
+		if curCode == 0 && !c.Contains(key(op.At(1).Int64())) {
+			newPut = 1
+		}
+		nested := i+1 < ops.Len() && ops.At(i+1).Len() == 3 && ops.At(i+1).At(0).AsInt() == 6 && ops.At(i+1).At(2).AsInt() == 1
+		if nested {
+			armed, armedKey = true, ops.At(i+1).At(1).Int64()
+		}
 		var out Sx
 		panicked, pv := Catch(func() {
 			switch op.At(0).AsInt() {
@@ -185,7 +243,20 @@ func run(in Sx) Sx {
 		if panicked {
 			out = List(Int(99), Str(fmt.Sprint(pv)))
 		}
-		obs = append(obs, List(out, ListOf(log), Int(int64(c.Len()))))
+		if nested {
+			// the operation and the removal performed from inside its callback are reported as two
+			// observations, in the order in which they took effect
+			if nestedOut.Kind == 0 {
+				obs = append(obs, List(out, ListOf(log), Int(int64(c.Len())), Int(viewBad)))
+				obs = append(obs, List(List(Int(98)), ListOf(nil), Int(int64(c.Len())), Int(0)))
+			} else {
+				obs = append(obs, List(out, ListOf(log[:nestedAt]), Int(int64(lenAtCb)), Int(viewBad)))
+				obs = append(obs, List(nestedOut, ListOf(log[nestedAt:]), Int(int64(c.Len())), Int(0)))
+			}
+			i++
+			continue
+		}
+		obs = append(obs, List(out, ListOf(log), Int(int64(c.Len())), Int(viewBad)))
 	}
 	return ListOf(obs)
 }
@@ -224,6 +295,49 @@ func gen(a Args, out *Out) {
 			out.Count("histories-without-callback")
 		}
 		out.Count(fmt.Sprintf("value-kind:%d", valKind))
+		// what the callback does (see run): passive in a bit more than half of the histories
+		cbmode := 0
+		if !nocb {
+			switch d := rng.Intn(100); {
+			case d < 15:
+				cbmode = 1
+			case d < 30:
+				cbmode = 2
+			case d < 45:
+				cbmode = 3
+			}
+		}
+		if big && cbmode == 2 {
+			cbmode = 0 // the pre-fill of big histories is not run through the shadow cache
+		}
+		out.Count(fmt.Sprintf("callback-mode:%d", cbmode))
+		// a shadow cache run alongside the generation tells whether an operation fires the
+		// callback, i.e. whether a nested removal (mode 2) takes place
+		var sim *lru.Cache
+		simFired, simArmed, simKey := 0, false, int64(0)
+		sim = lru.NewCache(capacity, func(k, v interface{}) {
+			simFired++
+			if simArmed {
+				simArmed = false
+				sim.Remove(key(simKey))
+			}
+		})
+		simDo := func(op Sx) {
+			switch op.At(0).AsInt() {
+			case 0:
+				sim.Put(key(op.At(1).Int64()), op.At(2).Int64())
+			case 1:
+				sim.Get(key(op.At(1).Int64()))
+			case 6:
+				sim.Remove(key(op.At(1).Int64()))
+			case 7:
+				sim.RemoveOldest()
+			case 8:
+				sim.Resize(op.At(1).AsInt())
+			case 9:
+				sim.Purge()
+			}
+		}
 		// half of the histories draw values from a tiny set, so that re-puts with an unchanged
 		// value (which must still count as use) are frequent
 		valRange := 1000
@@ -282,8 +396,29 @@ func gen(a Args, out *Out) {
 			default:
 				op = Ints(11)
 			}
-			out.Count(fmt.Sprintf("op:%d", op.At(0).AsInt()))
+			code := op.At(0).AsInt()
+			if cbmode == 3 && (code == 8 || code == 9) {
+				// a panicking callback in the middle of a multi-entry departure leaves the loop
+				// half done: outside the property; use a query instead
+				op = Ints(5)
+				code = 5
+			}
+			out.Count(fmt.Sprintf("op:%d", code))
 			ops = append(ops, op)
+			simFired = 0
+			wasArmed := false
+			if cbmode == 2 && (code == 0 || code == 6 || code == 7) && rng.Bool() {
+				simArmed, simKey, wasArmed = true, int64(rng.Intn(universe)), true
+			}
+			func() {
+				defer func() { recover() }()
+				simDo(op)
+			}()
+			if wasArmed && !simArmed { // the callback fired and performed the nested removal
+				ops = append(ops, Ints(6, simKey, 1))
+				out.Count("nested-removal")
+			}
+			simArmed = false
 		}
 		if big {
 			// fill first, so that resizes and purges act on a well-filled cache
@@ -297,7 +432,7 @@ func gen(a Args, out *Out) {
 		if nocb {
 			nocbI = 1
 		}
-		in := List(Int(int64(capacity)), ListOf(ops), Int(nocbI), Int(int64(valKind)))
+		in := List(Int(int64(capacity)), ListOf(ops), Int(nocbI), Int(int64(valKind)), Int(int64(cbmode)))
 		kind := "random"
 		if big {
 			kind = "big"
